@@ -264,6 +264,49 @@ def _is_midpoint_syntactic(e, al, lo, hi):
     return False
 
 
+def _chandrupatla_tolerances(ctx, rep, fn):
+    """The tolerances chandrupatla falls back to when the caller gives none must be of the order of machine precision:
+    the property promises 1e-9 of the bracket width, which an absolute tolerance t only delivers for brackets wider than t / 1e-9."""
+    from ..constfold import fold
+    from ..idioms import is_none_test
+    prog = ctx.prog
+    for pname in ('eps_m', 'eps_a'):
+        if pname not in fn.params:
+            continue
+        cons = f'chandrupatla default {pname}'
+        args_ = fn.node.args
+        pos = args_.posonlyargs + args_.args
+        dmap = dict(zip([a_.arg for a_ in pos[len(pos) - len(args_.defaults):]], args_.defaults))
+        dmap.update({a_.arg: d_ for a_, d_ in zip(args_.kwonlyargs, args_.kw_defaults) if d_ is not None})
+        dflt = dmap.get(pname)
+        vals = []
+        if dflt is not None and not (isinstance(dflt, ast.Constant) and dflt.value is None):
+            vals.append(ast.copy_location(ast.Assign(targets=[ast.Name(id=pname, ctx=ast.Store())], value=dflt), dflt))
+        for s_ in walk_no_nested(fn.node):
+            if isinstance(s_, ast.If):
+                nt = is_none_test(s_.test)
+                if nt is not None and isinstance(nt[0], ast.Name) and nt[0].id == pname:
+                    branch = s_.body if nt[1] else s_.orelse
+                    for a in branch:
+                        if isinstance(a, ast.Assign) and any(isinstance(t, ast.Name) and t.id == pname for t in a.targets):
+                            vals.append(a)
+            if isinstance(s_, ast.Assign) and isinstance(s_.value, ast.IfExp) and any(isinstance(t, ast.Name) and t.id == pname for t in s_.targets):
+                nt = is_none_test(s_.value.test)
+                if nt is not None and isinstance(nt[0], ast.Name) and nt[0].id == pname:
+                    vals.append(ast.copy_location(ast.Assign(targets=s_.targets, value=s_.value.body if nt[1] else s_.value.orelse), s_))
+        if not vals:
+            rep.undecided('D5.tol', fn, fn.node.name, f'where `{pname}` gets its value when the caller passes None is not recognised', construct=cons)
+            continue
+        a = vals[0]
+        v = fold(prog, fn.module, a.value, fn.node)
+        if v is None:
+            rep.undecided('D5.tol', fn, a, f'default of `{pname}` (`{short(a.value, 40)}`) is not a foldable constant', construct=cons)
+        else:
+            rep.check('D5.tol', fn, a, 0 <= v <= 1e-12, f'default {pname} = {v:g} (machine-precision order)',
+                      f'default {pname} = {v:g}: the root is only located to that tolerance, so "1e-9 of the bracket width" fails for every bracket '
+                      f'narrower than {v / 1e-9:g}', construct=cons)
+
+
 def chandrupatla(ctx, rep):
     prog = ctx.prog
     fn = prog.func(OPT + 'chandrupatla')
@@ -287,6 +330,7 @@ def chandrupatla(ctx, rep):
                     where = s
     rep.check('D1.pre', fn, where, ok, 'requires sign(f(xmin)) * sign(f(xmax)) <= 0 before the loop',
               'no sign-product precondition on both ends before the loop: an invalid bracket returns a value', construct='chandrupatla precondition')
+    _chandrupatla_tolerances(ctx, rep, fn)
     if not loops:
         return
     lp = loops[0]
